@@ -27,7 +27,7 @@ VALS = {
     "bool": [True, False],
     "int": [0, 1, -5, 9007199254740993, 7],
     "float": [1.5, -2.25, 0.0, "inf", "-inf", "-0.0", 1e300],
-    "str": ["a", "ä", "x y", "0", "None", "nan", "q\"r", "line\nbreak"],
+    "str": ["a", "ä", "x y", "0", "None", "nan", "q\"r", "line\nbreak", " ", "  ", "\u00a0", "\u3000", "\t"],
     # text that merely LOOKS like other types: it is text, and must come back as the same text in a string column
     "strlike": ["2019-09-16", "2020-01-01", "2021-12-31 10:00:00", "2020-01-01T00:00:00", "1", "2.5", "true", "null", "1e3", "00501"],
     "date": [0, 1, 18000, 19000, -719162],
